@@ -672,6 +672,9 @@ PortCat0 == <<
   PC(<<>>, "none"),
   PC(<<COLON>>, "default"),               \* + the scheme's default port
   PC(S(":81"), "other"),
+  PC(S(":443"), "other"),                 \* the default of another scheme (of this one for https)
+  PC(S(":80"), "other"),
+  PC(S(":21"), "other"),
   PC(S(":0"), "zero"),
   PC(S(":65535"), "max"),
   PC(S(":65536"), "too-big"),
@@ -687,9 +690,11 @@ NPorts == Len(PortCat0)
 PortAt(dp, j) == IF PortCat0[j].k \in {"default", "leading-zero-default"} THEN PC(PortCat0[j].t \o dp, PortCat0[j].k)
                  ELSE PortCat0[j]
 
-SegCat == << S("a"), S("A"), S("."), S(".."), <<>>, S("%2e"), S("%2E%2e"), S("%2F"), S("%aF"), <<EAC>>, S("a b"), S("x;y") >>
+SegCat == << S("a"), S("A"), S("."), S(".."), <<>>, S("%2e"), S("%2E%2e"), S("%2F"), S("%aF"), <<EAC>>, S("a b"), S("x;y"),
+            \* backslashes: no separators (dot segments hidden behind them are ordinary text)
+            S("a\\..\\b"), S("\\.") >>
 SegKind == << "plain", "upper", "dot", "dotdot", "empty", "escaped-dot", "escaped-dotdot", "escaped-slash",
-              "mixed-case-escape", "nonascii", "space", "param" >>
+              "mixed-case-escape", "nonascii", "space", "param", "backslash-dots", "backslash-dot" >>
 
 QFClasses == <<QM, HASH, 97, PCT, 101, 70, SPC, EAC>>
 SoupClasses == <<DOT, SLASH, COLON, AT, LBR, RBR, QM, HASH, PCT, BSL>>
